@@ -256,7 +256,7 @@ pub fn run() -> i32 {
                 }
             }
         }
-        for pos in 0..=9u8 {
+        for pos in 0..=14u8 {
             crate::sym::load(vec![vec![pos]]);
             n += 1;
             if std::panic::catch_unwind(|| crate::node::c19_references()).is_err() {
